@@ -331,7 +331,11 @@ Definition wf_op (s : st) (o : op) : bool :=
       && (in_txn s || match dirty s with [] => true | _ => false end)
   | OBegin => negb (in_txn s)
   | OCommit _ => in_txn s
-  | OCkpt _ | OApiCkpt _ | OReopen _ _ => negb (in_txn s) && match dirty s with [] => true | _ => false end
+  | OApiCkpt ord =>
+      negb (in_txn s) && match dirty s with [] => true | _ => false end
+      (* every table that has frames in the log is open in the file manager, hence msynced by sync_all *)
+      && forallb (fun t => mem t ord) (frame_tables (files s) (cur_fl s))
+  | OCkpt _ | OReopen _ _ => negb (in_txn s) && match dirty s with [] => true | _ => false end
   end.
 
 Fixpoint wf_run (s : st) (os : list op) : bool :=
